@@ -64,8 +64,8 @@ chk('C13', 'exploration',
     'bounded exhaustive enumeration of operand alphabets against exact rational arithmetic',
     'DESIGN.md 4/C13')
 chk('C19', 'model_checking',
-    'Every operation history up to depth H over ten operations (hierarchy / single-module / child generation on fresh and reused generators and from different roots, generation for a second circuit, inlinePrimitive, simulation steps, a structural edit) is executed on freshly built circuits of three kinds; every returned text is compared after normalisation with the canonical answer of that request on a pristine build, the wire trace with a twin circuit that was only simulated, and the circuit snapshot across each generation call.',
-    'Normalisation (id renumbering, sorting of wire-declaration runs) is the only tolerance; three circuit kinds; depth bound H (4 quick, 6 thorough).',
+    'Every operation history up to depth H over eleven operations (hierarchy / single-module / child generation on fresh and reused generators and from different roots, hierarchy requests sharing one caller-owned createdStructures list, generation for a second circuit, inlinePrimitive, simulation steps, a structural edit) is executed on freshly built circuits of five kinds (shared named modules, counter, transpiled FSM, own clock domain, three transpiled classes with a forwarded Verilog parameter), every shard in a freshly forked process; every returned text is compared after normalisation with the canonical answer of that request on a pristine build, the wire trace with a twin circuit that was only simulated, and the circuit snapshot across each generation call.',
+    'Normalisation (id renumbering, sorting of wire-declaration runs) is the only tolerance; five circuit kinds; depth bound H (4 quick, 5 thorough).',
     'bounded exhaustive history enumeration on the implementation with a differential (canonical / twin) oracle',
     'DESIGN.md 4/C19')
 chk('C02', 'model_checking',
